@@ -12,6 +12,7 @@ package sqlx
 //@   let tx = ret(b, 0)
 //@   observe BeginFails = ret(b, 1) != nil
 //@   observe FnPanics = panicked(fn)
+//@   observe PanicNil = panicnil(fn)
 //@   observe FnErr = calls(fn) == 1 && !panicked(fn) && ret(fn) != nil
 //@   observe CommitErr = calls(tx.Commit) == 1 && ret(tx.Commit) != nil
 //@   observe RollbackErr = calls(tx.Rollback) == 1 && ret(tx.Rollback) != nil
